@@ -27,6 +27,8 @@ Inductive stmt :=
 | AssignF (x:nat)                      (* #[x]# = 1 : the Id node carries a forced symbol (aster.value of a Symbol) *)
 | UseF (x:nat)                         (* sink(#[x]#) *)
 | Func (f:nat) (ps:list nat) (b:block) (* local function f(ps) b end *)
+| FuncAssign (x:nat) (b:block)         (* function x() b end : defines a function over the EXISTING variable x
+                                          (a function-pointer variable): an assignment to x *)
 | Call (f:nat) (n:nat)                 (* f(1,..,n) *)
 | Do (b:block)
 | If (t e:block)
@@ -62,7 +64,7 @@ Fixpoint rflow_stmt (inloop:bool) (s:stmt) {struct s} : bool :=
   match s with
   | Break | Continue => inloop
   | Fallthrough => false
-  | Func _ _ b => rflow_block false false b
+  | Func _ _ b | FuncAssign _ b => rflow_block false false b
   | Do b => rflow_block inloop false b
   | If t e => rflow_block inloop false t && rflow_block inloop false e
   | While b | Repeat b | For b => rflow_block true false b
@@ -134,7 +136,7 @@ Fixpoint aflow_stmt (ch:list fscope) (id:nat) (s:stmt) {struct s} : errs :=
   | Break => if break_ok ch then [] else [(id, KBreak)]
   | Continue => if break_ok ch then [] else [(id, KContinue)]
   | Fallthrough => [(id, KFall)]       (* never reached: blocks handle fallthrough themselves *)
-  | Func _ _ b => aflow_block (plain_scope :: func_scope :: ch) false b
+  | Func _ _ b | FuncAssign _ b => aflow_block (plain_scope :: func_scope :: ch) false b
   | Do b => aflow_block (plain_scope :: ch) false b
   | If t e => aflow_block (plain_scope :: ch) false t ++ aflow_block (plain_scope :: ch) false e
   | While b | Repeat b | For b => aflow_block (plain_scope :: loop_scope :: ch) false b
@@ -221,6 +223,8 @@ Fixpoint rname_stmt (fp:list nat) (e:renv) (s:stmt) {struct s} : bool :=
   | Use x | UseF x => match rlookup x e with Some d => use_ok fp d | None => false end
   | Call f n => match rlookup f e with Some d => call_ok n d | None => false end
   | Func f ps b => rname_block (f :: fp) (rparams (f :: fp) ps ((f, DFun (length ps)) :: e)) b
+  | FuncAssign x b =>        (* an assignment to x; the body is a new function *)
+    match rlookup x e with Some d => assign_ok fp d | None => false end && rname_block (x :: fp) e b
   | Do b | While b | Repeat b | For b | Defer b => rname_block fp e b
   | If t el => rname_block fp e t && rname_block fp e el
   | Switch cs _ d => rname_cases fp e cs && rname_block fp e d
@@ -310,6 +314,12 @@ Fixpoint aname_stmt (ch:list nscope) (id:nat) (s:stmt) {struct s} : errs :=
                 | None => [(id, KNotCallable)]
                 end
     end
+  | FuncAssign x b =>
+    (* visitor_FuncDef_variable traverses the name (visitors.Id), then visitors.FuncDef refuses a const /
+       comptime variable (1fc2b5c, scraped), then the body is analysed in a new function scope *)
+    let (e1, oy) := id_errs ch id x in
+    e1 ++ (if gen_funcdef_checks_const then const_errs id oy else []) ++
+    aname_block (mkn false [] :: mkn true [] :: ch) b
   | Func f ps b =>
     let ch1 := declare f (mksym QVar (Some (length ps)) (up_fun_id ch)) ch in
     let fs := mkn true [] in
@@ -412,7 +422,7 @@ Fixpoint rlab_stmt (fs:list lframe) (s:stmt) {struct s} : bool :=
   match s with
   | Label l => rlabel l fs
   | Goto l => rgoto l fs
-  | Func _ _ b => rlab_block [] [] false b
+  | Func _ _ b | FuncAssign _ b => rlab_block [] [] false b
   | Do b | While b | Repeat b | For b => rlab_block fs [] false b
   | If t e => rlab_block fs [] false t && rlab_block fs [] false e
   | Switch cs _ d => rlab_cases fs cs && rlab_block fs [] false d
@@ -497,7 +507,7 @@ Fixpoint alab_stmt (fs:list lframe) (id:nat) (s:stmt) {struct s} : errs :=
   match s with
   | Label l => alabel id l fs
   | Goto l => agoto id l fs
-  | Func _ _ b => alab_block [] [] false b
+  | Func _ _ b | FuncAssign _ b => alab_block [] [] false b
   | Do b | While b | Repeat b | For b => alab_block fs [] false b
   | If t e => alab_block fs [] false t ++ alab_block fs [] false e
   | Switch cs _ d => alab_cases fs cs ++ alab_block fs [] false d
@@ -526,7 +536,7 @@ with alab_cases (fs:list lframe) (cs:cases) {struct cs} : errs :=
 Fixpoint flabels_stmt (s:stmt) {struct s} : list nat :=
   match s with
   | Label l => [l]
-  | Func _ _ _ => []                                     (* another function *)
+  | Func _ _ _ | FuncAssign _ _ => []                    (* another function *)
   | Do b | While b | Repeat b | For b | Defer b => flabels_block b
   | If t e => flabels_block t ++ flabels_block e
   | Switch cs _ d => flabels_cases cs ++ flabels_block d
@@ -542,7 +552,7 @@ Fixpoint nodupn (l:list nat) : bool :=
 
 Fixpoint runiq_stmt (s:stmt) {struct s} : bool :=
   match s with
-  | Func _ _ b => nodupn (flabels_block b) && runiq_block b
+  | Func _ _ b | FuncAssign _ b => nodupn (flabels_block b) && runiq_block b
   | Do b | While b | Repeat b | For b | Defer b => runiq_block b
   | If t e => runiq_block t && runiq_block e
   | Switch cs _ d => runiq_cases cs && runiq_block d
@@ -579,7 +589,7 @@ Definition goto_leaves_defer (l:nat) (fs:list lframe) : bool :=
 Fixpoint rgd_stmt (fs:list lframe) (s:stmt) {struct s} : bool :=
   match s with
   | Goto l => negb (goto_leaves_defer l fs)
-  | Func _ _ b => rgd_block [] [] false b
+  | Func _ _ b | FuncAssign _ b => rgd_block [] [] false b
   | Do b | While b | Repeat b | For b => rgd_block fs [] false b
   | If t e => rgd_block fs [] false t && rgd_block fs [] false e
   | Switch cs _ d => rgd_cases fs cs && rgd_block fs [] false d
@@ -618,7 +628,7 @@ Fixpoint rconst_stmt (s:stmt) {struct s} : bool :=
   | ConstIndex len k => index_ok len k
   | ConstConv t v _ => match type_info t with Some (b, sg) => fits b sg v | None => false end
   | ConstFrac _ => false               (* a fractional value is representable in no integral type *)
-  | Func _ _ b | Do b | While b | Repeat b | For b | Defer b => rconst_block b
+  | Func _ _ b | FuncAssign _ b | Do b | While b | Repeat b | For b | Defer b => rconst_block b
   | If t e => rconst_block t && rconst_block e
   | Switch cs _ d => rconst_cases cs && rconst_block d
   | _ => true
@@ -643,7 +653,7 @@ Fixpoint aconst_stmt (id:nat) (s:stmt) {struct s} : errs :=
          | None => [(id, KRange)]
          end
   | ConstFrac _ => [(id, KRange)]
-  | Func _ _ b | Do b | While b | Repeat b | For b | Defer b => aconst_block b
+  | Func _ _ b | FuncAssign _ b | Do b | While b | Repeat b | For b | Defer b => aconst_block b
   | If t e => aconst_block t ++ aconst_block e
   | Switch cs _ d => aconst_cases cs ++ aconst_block d
   | _ => []
@@ -664,7 +674,7 @@ Fixpoint nodupb (l:list nat) : bool :=
 Fixpoint rsw_stmt (s:stmt) {struct s} : bool :=
   match s with
   | Switch cs _ d => nodupb (case_values cs) && rsw_cases cs && rsw_block d
-  | Func _ _ b | Do b | While b | Repeat b | For b | Defer b => rsw_block b
+  | Func _ _ b | FuncAssign _ b | Do b | While b | Repeat b | For b | Defer b => rsw_block b
   | If t e => rsw_block t && rsw_block e
   | _ => true
   end
@@ -683,7 +693,7 @@ Fixpoint dup_errs (seen:list nat) (cs:cases) : errs :=
 Fixpoint asw_stmt (s:stmt) {struct s} : errs :=
   match s with
   | Switch cs _ d => dup_errs [] cs ++ asw_cases cs ++ asw_block d
-  | Func _ _ b | Do b | While b | Repeat b | For b | Defer b => asw_block b
+  | Func _ _ b | FuncAssign _ b | Do b | While b | Repeat b | For b | Defer b => asw_block b
   | If t e => asw_block t ++ asw_block e
   | _ => []
   end
